@@ -411,8 +411,14 @@ Qed.
 Theorem load_dump_shared_operator_variants : roundtrip_ok w_rename = true /\ roundtrip_ok w_three = true.
 Proof. repeat split; vm_compute; reflexivity. Qed.
 (* what remains outside the guard: two DIFFERENT operator templates of one name in one circuit *)
-Theorem load_dump_refuted_rename : exists c, no_rename c = false /\ ~ load_dump_statement c.
-Proof. exists w_rename2. split; [vm_compute; reflexivity|]. apply roundtrip_ok_false. vm_compute. reflexivity. Qed.
+Theorem load_dump_refuted_rename : exists c, dicts_wf c = true /\ no_rename c = false /\ no_critical_rename c = false /\ ~ load_dump_statement c.
+Proof. exists w_rename2. repeat split; try (vm_compute; reflexivity). apply roundtrip_ok_false. vm_compute. reflexivity. Qed.
+(* between the proved guard no_rename and the finding's guard no_critical_rename: circuits in which only node / circuit
+   templates are renamed.  NOT covered by load_dump; these two computed witnesses (and the correspondence runs) are all there is *)
+Theorem load_dump_between_guards : 
+  (no_rename w_rename = false /\ no_critical_rename w_rename = true /\ roundtrip_ok w_rename = true) /\
+  (no_rename w_three = false /\ no_critical_rename w_three = true /\ roundtrip_ok w_three = true).
+Proof. repeat split; vm_compute; reflexivity. Qed.
 Theorem load_dump_nonvacuous : WFy w_ok = true /\ roundtrip_ok w_ok = true /\ List.length (fst (denote w_ok)) = 4.
 Proof. repeat split; vm_compute; reflexivity. Qed.
 
